@@ -99,7 +99,7 @@ def cmd_verify(sid):
     print(sid, "confirmed" if m["confirmed"] else "NOT CONFIRMED", dict(applies=rca == 0, passes_without=ok_without, fails_with=fails_with, suite=suite))
 
 
-def cmd_check(sid, tier="quick", where="repo"):
+def cmd_check(sid, tier="quick", where="repo", only=None):
     """where=repo: apply to /repo, run, undo (the brief's recipe).  where=worktree: apply to a scratch worktree of /repo's HEAD and point the
     checks at it with VERIF_REPO - same code under check, but /repo is never touched (safe while another pass is reading /repo)."""
     m = load(sid)
@@ -122,19 +122,19 @@ def cmd_check(sid, tier="quick", where="repo"):
             os.environ["VERIF_REPO"] = wt
             os.environ["VERIF_STAGE_ROOT"] = SEEDROOT
             os.environ["VERIF_KANI_TARGET"] = SEEDROOT + "/kani-target"
-            rc, out = sh([os.path.join(HERE, "vx"), "check", prop, "--tier", tier], cwd=HERE, timeout=7200)
+            rc, out = sh([os.path.join(HERE, "vx"), "check", prop, "--tier", tier] + (["--only", only] if only else []), cwd=HERE, timeout=7200)
         finally:
             sh(["git", "-C", "/repo", "worktree", "remove", "--force", wt])
             shutil.rmtree("%s/%s" % (SEEDROOT, prop), ignore_errors=True)
     else:
         rca, outa = sh(["git", "-C", "/repo", "apply", os.path.join(SEEDED, sid, "patch.diff")])
         try:
-            rc, out = sh([os.path.join(HERE, "vx"), "check", prop, "--tier", tier], cwd=HERE, timeout=7200)
+            rc, out = sh([os.path.join(HERE, "vx"), "check", prop, "--tier", tier] + (["--only", only] if only else []), cwd=HERE, timeout=7200)
         finally:
             sh(["git", "-C", "/repo", "checkout", "--", "."])
     lines = [l for l in out.splitlines() if l.startswith(("VIOLATION", "UNDECIDED")) or (l.startswith("UNIT") and "discharged" not in l)]
     lines = [l for l in lines if not (l.startswith("UNIT") and any(("property=%s" % prop) in k and False for k in []))]
-    m.setdefault("checks", {})[tier] = dict(exit=rc, wall_s=round(time.time() - t0), lines=lines[:24], at=time.strftime("%Y-%m-%d %H:%M"),
+    m.setdefault("checks", {})[tier] = dict(only_unit=only, exit=rc, wall_s=round(time.time() - t0), lines=lines[:24], at=time.strftime("%Y-%m-%d %H:%M"),
                                             verif_commit=sh(["git", "-C", HERE, "rev-parse", "--short", "HEAD"])[1].strip())
     m["detected"] = any(v["exit"] == 1 for v in m["checks"].values())
     save(sid, m)
